@@ -100,6 +100,14 @@ Example c11_ex_faithful_completion_keeps_referrer :
   fst (step demo_parse (js s) (CDel "tag/a")) = Err EReferenced.
 Proof. exact faithful_completion_keeps_referrer. Qed.
 
+(* 5d. The definition of a mark tag (all that a restart rebuilds its matches from) denotes exactly its matches after
+       every sequence of MarkAddStream / MarkDelStream operations - at the level of the id list that the text
+       denotes; the step from the decimal text to that list is checked on the real code through the real parser. *)
+Theorem c11_mark_definition_denotes_matches :
+  forall (ids : list N) (ops : list markop) (x : N),
+    In x (md_ids (fold_left md_step ops (md_init ids))) <-> In x (md_matches (fold_left md_step ops (md_init ids))).
+Proof. exact mark_definition_denotes_matches. Qed.
+
 (* 6. inheritTagUncertainty terminates on every well-formed table within |tags| passes and
       only changes the uncertain sets. *)
 Theorem c11_inherit_uncertainty_terminates :
